@@ -56,6 +56,14 @@ CANARIES = ['#program always.\n{c}.\n&tel { >: c }.', '#program always.\n&tel { 
             "#program dynamic.\nb :- 'a.\n#program always.\n{a}.\nc' :- a.", '&tel { a >? b & > c }.', '#program initial.\n&tel { > (a & > b) }.\n#program always.\n:- a, not &tel { > b }.']
 
 
+# overlapping runs: B is solved completely from inside the model callback of A (both mention the same temporal sub-formulas, with different atom numbering)
+OVERLAP = [('#program always.\n{ p }.\nq :- not not &tel { < p }.', '#program always.\n{ r; p }.\nq :- not not &tel { < p }.\ns :- not &tel { < p | r }.'),
+           ('#program always.\n{ p }.\n:- not &tel { >? p }.', '#program always.\n{ r }.\n{ p }.\nq :- not not &tel { >? p }.'),
+           ('#program always.\n{ a }.\n&tel { > b | a }.', '#program always.\n{ c; a }.\n&tel { > b | a } :- c.'),
+           ('#program always.\n{ p }.\nq :- not &del { * &true .>? p }.', '#program always.\n{ r; p }.\nq :- not &del { * &true .>? p }, r.'),
+           ("#program always.\n{ p }.\n#program dynamic.\nq :- 'p, not &tel { < < p }.", "#program always.\n{ r }.\n{ p }.\n#program dynamic.\nq :- 'r, not &tel { < < p }.")]
+
+
 def canon(r):
     if r.get('status') != 'ok':
         return ('error', r.get('type'), r.get('msg'))
@@ -126,6 +134,19 @@ def run(ctx):
                 cex.append({'key': 'c14:after-rejected:' + rq['ops'][0][1][0].replace('\n', ' '), 'what': '%s of %r after the rejected input %r in the same process differs from a fresh process' % (op[0], op[1][0], rq['ops'][0][1][0]),
                             'input': {'ops': rq['ops'], 'threads': 1, 'kind': 'history', 'H': H}})
                 break
+    ov_reqs, ov_meta = [], []
+    for a, b in OVERLAP + [(b, a) for a, b in OVERLAP]:
+        for at in (0, 1, 2):
+            ov_reqs.append({'cmd': 'history', 'ops': [['nested', [a], H, [b], at]], 'threads': 1})
+            ov_meta.append((a, b, at))
+    fresh = pool.run([{'cmd': 'solve', 'texts': [t], 'imax': H + 1, 'istop': 'UNKNOWN'} for t in sorted({x for ab in OVERLAP for x in ab})], timeout=60)
+    fresh = dict(zip(sorted({x for ab in OVERLAP for x in ab}), [canon(x) for x in fresh]))
+    for (a, b, at), rq, r in zip(ov_meta, ov_reqs, ctx.impl(hashseed=seeds[0]).run(ov_reqs, timeout=240)):
+        ra = r['results'][0] if r.get('status') == 'ok' else r
+        rb = ra.get('nested_result') or {}
+        if canon(ra) != fresh[a] or canon(rb) != fresh[b]:
+            cex.append({'key': 'c14:overlap:%d:%s' % (at, a.replace('\n', ' ')), 'what': 'two overlapping runs (the second started from the model callback of the first at step %d): %s differs from a fresh process' % (
+                at, 'the outer run' if canon(ra) != fresh[a] else 'the inner run'), 'input': {'ops': rq['ops'], 'threads': 1, 'kind': 'overlap', 'H': H, 'a': a, 'b': b}})
     hres = ctx.impl(hashseed=seeds[0]).run(hist_reqs, timeout=240)
     for (idx, ops, threads), r in zip(metas, hres):
         if r.get('status') != 'ok':
@@ -137,7 +158,7 @@ def run(ctx):
                 cex.append({'key': 'c14:history:' + ' '.join(op[1]).replace('\n', ' '), 'what': '%s in a long-lived process (%d threads, after other calls) differs from the result of a fresh process' % (op[0], threads),
                             'input': {'ops': ops, 'threads': threads, 'kind': 'history', 'H': H}})
                 break
-    cov = {'evaluations': len(progs) * 2 * len(seeds) + sum(len(m[1]) for m in metas) + sum(len(q['ops']) for q in rej_reqs), 'rejected_then_valid_histories': len(rej_reqs), 'distinct_nontrivial': len(nontriv), 'slow_programs_not_solved_in_histories': len(slow),
+    cov = {'evaluations': len(progs) * 2 * len(seeds) + sum(len(m[1]) for m in metas) + sum(len(q['ops']) for q in rej_reqs) + 2 * len(ov_reqs), 'overlapping_runs': len(ov_reqs), 'rejected_then_valid_histories': len(rej_reqs), 'distinct_nontrivial': len(nontriv), 'slow_programs_not_solved_in_histories': len(slow),
            'rule': 'programs with 3-6 future predicates (arguments, classical negation), look-ahead constraints of depth <= 3, head formulas and body formulas, split over 1-3 input texts; '
                    'transform output and answer sets (horizons 0..%d) compared across PYTHONHASHSEED in %s (fresh interpreters), %d random histories of 12 calls in one process (half of them '
                    'interleaved in 3 threads), and %d fixed histories "rejected input, then 8 valid programs translated and solved, then the rejected input again"; non-trivial = distinct accepted program with at least one answer set' % (H, seeds, nh, len(REJECTED)),
@@ -158,6 +179,9 @@ def replay(ctx, payload):
     r = ctx.impl().run([{'cmd': 'history', 'ops': inp['ops'], 'threads': inp['threads']}], timeout=240)[0]
     if r.get('status') != 'ok':
         return True
+    if inp['kind'] == 'overlap':
+        fa, fb = [canon(x) for x in ctx.impl(hashseed='5', n=1).run([{'cmd': 'solve', 'texts': [t], 'imax': inp['H'] + 1, 'istop': 'UNKNOWN'} for t in (inp['a'], inp['b'])])]
+        return canon(r['results'][0]) != fa or canon(r['results'][0].get('nested_result') or {}) != fb
     fresh = []
     for op in inp['ops']:
         cmd = {'cmd': 'transform', 'texts': op[1]} if op[0] == 'transform' else {'cmd': 'solve', 'texts': op[1], 'imax': op[2] + 1, 'istop': 'UNKNOWN'}
